@@ -146,6 +146,30 @@ func (w *workerQ) answer(res queue.TaskResult) string {
 	}
 }
 
+// filter runs q.Filter; on a started queue the harness is subscribed to the queue's yield points,
+// so the one inside Filter has to be let through.
+func (w *workerQ) filter(fn func(task.Task) bool) string {
+	if !w.started {
+		return Catch(func() string { w.q.Filter(fn); return "-" })
+	}
+	done := make(chan string, 1)
+	go func() { done <- Catch(func() string { w.q.Filter(fn); return "-" }) }()
+	for {
+		select {
+		case a := <-w.arrive:
+			if a.Name == "queue.loop" {
+				w.parked = a
+			} else {
+				a.Release()
+			}
+		case r := <-done:
+			return r
+		case <-time.After(3 * time.Second):
+			return "timeout-filter"
+		}
+	}
+}
+
 func (w *workerQ) close() {
 	sched.Unsubscribe(w.name)
 	w.cancel()
@@ -212,7 +236,7 @@ func c05Op(c *Case, w *workerQ, op string, args []int, st string, h, a, tl []int
 		for _, i := range args {
 			keep[strconv.Itoa(i)] = true
 		}
-		ret = Catch(func() string { q.Filter(func(t task.Task) bool { return keep[taskID(t)] }); return "-" })
+		ret = w.filter(func(t task.Task) bool { return keep[taskID(t)] })
 	case "get":
 		line = fmt.Sprintf("get %d", args[0])
 		ret = Catch(func() string { return taskID(q.Get(strconv.Itoa(args[0]))) })
